@@ -1,19 +1,27 @@
 #!/bin/bash
-# usage: tools/eval_seeded.sh <tier> [<seeded dir>...] - runs every check against every seeded change; writes seeded/RESULTS-<tier>.tsv
-tier=$1; shift
+# usage: tools/eval_seeded.sh <tier> <parallel> [<seeded dir>...]
+# Runs every check against every seeded change, each on its own scratch copy of /repo (never /repo itself), <parallel> at a time.
+# Appends one line per change to seeded/RESULTS-<tier>.tsv.
+tier=$1; par=$2; shift 2
 cd /verif
 dirs=${@:-$(ls -d seeded/C*-m*)}
-for d in $dirs; do
-  id=$(basename $d)
-  cd /repo; if ! git diff --quiet; then echo "/repo dirty"; exit 2; fi
-  git apply /verif/$d/patch.diff || { echo "$id patch does not apply"; continue; }
-  cd /verif
+one() {
+  d=$1; tier=$2; id=$(basename $d)
+  scratch=/tmp/evalseed-$id
+  rm -rf $scratch; mkdir -p $scratch
+  git -C /repo worktree add -q --detach $scratch/repo HEAD || exit 2
+  cp /repo/Cargo.lock $scratch/repo/ 2>/dev/null
+  git -C $scratch/repo apply /verif/$d/patch.diff || { echo -e "$id\tPATCH_DOES_NOT_APPLY"; git -C /repo worktree remove --force $scratch/repo; rm -rf $scratch; return; }
   line="$id"
   for c in C01 C02 C03 C04 C05 C06 C07 C08 C09 C10 C11 C12 C13 C14 C15 C16 C17 C18 C19 C20; do
-    out=$(./run $c --tier $tier 2>&1); rc=$?
+    out=$(O2O_REPO=$scratch/repo VERIF_WORK=$scratch/work VERIF_OUT=$scratch/out ./run $c --tier $tier 2>&1); rc=$?
     sigs=$(echo "$out" | grep "signature:" | head -2 | sed 's/.*signature: //' | tr '\n' ';')
     if [ $rc -eq 1 ]; then line="$line\t$c:VIOLATION[$sigs]"; elif [ $rc -eq 2 ]; then line="$line\t$c:INCONCLUSIVE"; fi
   done
-  git -C /repo checkout -- .
-  echo -e "$line" | tee -a seeded/RESULTS-$tier.tsv
-done
+  git -C /repo worktree remove --force $scratch/repo
+  rm -rf $scratch
+  echo -e "$line"
+}
+export -f one
+printf "%s\n" $dirs | xargs -P $par -I{} bash -c "one {} $tier" >> seeded/RESULTS-$tier.tsv
+sort -o seeded/RESULTS-$tier.tsv seeded/RESULTS-$tier.tsv
